@@ -9,7 +9,7 @@ use crate::dsl::P;
 use crate::hosts::{Host, HostKind, ObsEff, ObsOut};
 use crate::refmodel::{Kind, RState, Res, O};
 
-#[derive(Clone, Copy, Debug, PartialEq, Eq, PartialOrd, Ord)]
+#[derive(Clone, Copy, Debug, PartialEq, Eq, PartialOrd, Ord, serde::Serialize, serde::Deserialize)]
 pub enum Act {
     /// first observation of a direct host (core-like hosts start at construction)
     Observe,
@@ -18,7 +18,7 @@ pub enum Act {
     Abort(u8),
 }
 
-#[derive(Clone, Copy, Debug, PartialEq, Eq, PartialOrd, Ord)]
+#[derive(Clone, Copy, Debug, PartialEq, Eq, PartialOrd, Ord, serde::Serialize, serde::Deserialize)]
 pub struct Step {
     pub act: Act,
     /// direct hosts: take outputs after the action; core-like hosts: no-op probe after it
@@ -675,6 +675,19 @@ impl<'a> Explorer<'a> {
             hist.pop();
             hints.pop();
         }
+    }
+
+    pub fn check_step_pub(
+        &mut self,
+        chk: &mut Checker,
+        st: Step,
+        idx: usize,
+        res: Option<Res>,
+        call: Option<ObsOut>,
+        after: Option<ObsOut>,
+        host: &Host,
+    ) -> Result<(), Failure> {
+        self.check_step(chk, st, idx, res, call, after, host)
     }
 
     fn check_step(
